@@ -160,10 +160,12 @@ def check(run, model, tier):
                      and isinstance(m.ast.value, ast.Subscript)]
             # after the fetch the local is a record: the false side of `<local> is not None` is infeasible
             def feasible(a_, b_, lab_):
-                if a_.kind == 'test' and lab_ == 'false':
+                if a_.kind == 'test' and lab_ in ('true', 'false'):
                     cp_ = compare_parts(a_.ast)
-                    if cp_ and cp_[1] is ast.IsNot and isinstance(cp_[0], ast.Name) and cp_[0].id == trv and is_none(cp_[2]):
-                        return False
+                    if cp_ and isinstance(cp_[0], ast.Name) and cp_[0].id == trv and is_none(cp_[2]):
+                        # `<local> is not None` false / `<local> is None` true: infeasible once the local holds a record
+                        if (cp_[1] is ast.IsNot and lab_ == 'false') or (cp_[1] is ast.Is and lab_ == 'true'):
+                            return False
                 return True
             ok = bool(ups) and bool(fetch) and all((g.count_on_paths(lambda n_: 1 if n_ in ups else 0, start=ft, edge_ok=feasible) or (0, 0))[0] >= 1 for ft in fetch)
             run.inst('LIVE.newness', inner, 'the remembered record is updated on every path that saw a record', ok,
@@ -198,6 +200,8 @@ def check(run, model, tier):
             if ok:
                 kw = {k.arg: k.value for k in hcalls[0].keywords}
                 ok = isinstance(kw.get('fn'), ast.Name) and kw['fn'].id == f.params[1] and isinstance(kw.get('content'), ast.Name) and kw['content'].id == helpers[0].params[0]
+        if not ok and not helpers:
+            raise AnalysisError('%s: the callback wrapper is not a closure nested in the method (unknown shape)' % f.qualname)
         run.inst('LIVE.writer', f, 'callback wrapper only enqueues (fn, line) to the writer', ok, 'the active-object callback wrapper changed shape', obligation=True)
     pr = wr.methods.get('_print')
     puts = [c for c in shallow_calls(pr.node) if isinstance(c.func, ast.Attribute) and c.func.attr == 'put']
